@@ -98,7 +98,7 @@ pub open spec fn fee_step_live(b: BidOrderV3, g: int) -> bool {
         &&& rem_quote(b) >= g && rem_fee(b) >= 0
         &&& q != 0 && q < LIMIT96() && n < LIMIT96() && f < LIMIT96()
         &&& fits(ddiv(of_int(n), of_int(q)))
-        &&& fits(dmul(ddiv(of_int(n), of_int(q)), of_int(f)))
+        &&& fits(rmul(ddiv(of_int(n), of_int(q)), of_int(f)))
         &&& rem_fee(b) >= prorata(f, n, q)
     }
 }
